@@ -118,19 +118,20 @@ def _record(args):
     return i, ps, ex, ev, er
 
 
+def _record_many(jobs):
+    return [_record(j) for j in jobs]
+
+
 def trace_validate(ctx, prop, quick):
-    n = 1500 if quick else 20000
+    n = 1500 if quick else 12000
     length = 16 if quick else 22
     opts = {"C16": dict(restart=False, wait=False, extras=False),
             "C17": dict(restart=False, wait=True, extras=True),
             "C18": dict(restart=True, wait=True, extras=False)}[prop]
-    pool = multiprocessing.get_context("fork").Pool(ctx.ncpu)
-    try:
-        jobs = [(i, ctx.seed, length, opts) for i in range(n)]
-        rec = pool.map(_record, jobs, chunksize=50)
-    finally:
-        pool.close()
-        pool.join()
+    from .common import pool_map
+    jobs = [(i, ctx.seed, length, opts) for i in range(n)]
+    batches = [jobs[k:k + 100] for k in range(0, n, 100)]
+    rec = [r for part in pool_map(ctx, _record_many, batches) for r in part]
     traces = []
     meta = []
     handoffs = restarts = kills = 0
